@@ -1,7 +1,7 @@
 """C13 bounded stand-in: registration is transparent to the registered function or class.
 
 Run-time contract on the real gin.register / gin.external_configurable / gin.configurable
-over 18 callable kinds and 19 class shapes, reached through every access path, scoped and
+over 19 callable kinds and 19 class shapes, reached through every access path, scoped and
 unscoped; plus the rejections and interactive mode.  Expected values are computed on the
 ORIGINAL object with explicit keyword arguments BEFORE it is registered (Python's own
 call semantics are the reference), never through a second gin call.
@@ -42,10 +42,10 @@ import typing
 import gin
 from gin import config as gc
 
-BOUNDS = ('18 callable kinds + 19 class shapes x 3 registration APIs x {returned, original '
+BOUNDS = ('19 callable kinds + 19 class shapes x 3 registration APIs x {returned, original '
           'object, full selector, partial selector, reference, evaluated reference} x 3 scopes '
           '(none, 1 level, 2 levels), one bound parameter each; 14 rejection reasons x 3 APIs x '
-          '9 targets; interactive mode: 3 APIs x 4 targets x 3 ways of leaving the block; '
+          '10 targets; interactive mode: 3 APIs x 4 targets x 3 ways of leaving the block; '
           'thorough repeats the product with 3 further bound values')
 EXHAUSTIVE = {'quick': True, 'thorough': True}
 
@@ -72,6 +72,16 @@ class _Callable:
 
   def __call__(self, a=1, b=2):
     return ['co', a, b]
+
+
+class _CallableEq(_Callable):
+  """Distinct instances compare equal: 'a different object' is about identity."""
+
+  def __eq__(self, other):
+    return isinstance(other, _CallableEq)
+
+  def __hash__(self):
+    return 13
 
 
 class _Owner:
@@ -145,6 +155,8 @@ def _fn_target(kind):
     return str.__len__, ('abc',), None
   if kind == 'callable_obj':
     return _Callable(), (), 'b'
+  if kind == 'callable_eq':
+    return _CallableEq(), (), 'a'
   if kind == 'partial':
     def f(a, b=2, *, c=3):
       return ['p', a, b, c]
@@ -158,8 +170,8 @@ def _fn_target(kind):
 
 FN_KINDS = ['def_defaults', 'def_required', 'def_varkw', 'def_varargs', 'lambda', 'annotated',
             'generator', 'decorated', 'builtin_pow', 'builtin_sum', 'builtin_nosig',
-            'builtin_method', 'method_wrapper', 'slot_wrapper', 'callable_obj', 'partial',
-            'bound_method', 'classmethod']
+            'builtin_method', 'method_wrapper', 'slot_wrapper', 'callable_obj', 'callable_eq',
+            'partial', 'bound_method', 'classmethod']
 
 
 class _Meta(type):
@@ -182,7 +194,7 @@ class _AbstractBase(abc.ABC):
     pass
 
 
-def _cls_target(shape):
+def _cls_target(shape, idx=0):
   """Builds a fresh class K_<shape>, importable (for pickle) as a global of this module."""
   ab = 'def __init__(self, a=1, b=2):\n    self.a = a\n    self.b = b\n'
   new = ('def __new__(cls, a=1, b=2):\n    self = super(K, cls).__new__(cls)\n'
@@ -199,7 +211,7 @@ def _cls_target(shape):
       'slots': ('object', '__slots__ = ("a", "b")\n  ' + ab),
       'abc_concrete': ('_AbstractBase', ab + '  def go(self):\n    return 1\n'),
       'abc_abstract': ('_AbstractBase', ab),
-      'methods': ('object', ab + '  @gin.register\n  def meth(self, k=1):\n    return ["meth", self.a, k]\n'),
+      'methods': ('object', ab + '  @gin.register("meth_%d")\n  def meth(self, k=1):' % idx + '\n    return ["meth", self.a, k]\n'),
       'generic': ('typing.Generic[T]', ab),
       'exception': ('Exception', 'def __init__(self, a=1, b=2):\n    super().__init__(a, b)\n'
                     '    self.a = a\n    self.b = b\n'),
@@ -221,7 +233,6 @@ def _cls_target(shape):
   else:
     base, body = bodies[shape]
     env = dict(globals())
-    env['_Parent'] = type('_Parent', (), {})
     exec('class _Parent:\n  ' + ab, env)  # pylint: disable=exec-used
     exec('class K(%s):\n  %s' % (base, body), env)  # pylint: disable=exec-used
     cls = env['K']
@@ -241,8 +252,12 @@ CLS_SHAPES = ['init', 'new', 'both', 'neither', 'inherited', 'meta', 'meta_new',
               'dataclass_frozen_slots', 'methods', 'generic', 'exception', 'kwonly', 'varkw']
 
 
-def _target(name):
-  return _cls_target(name) if name in CLS_SHAPES else _fn_target(name)
+def _target(name, idx=0):
+  return _cls_target(name, idx) if name in CLS_SHAPES else _fn_target(name)
+
+
+def _adapt(target, value):
+  return [',', ' ', 'b', ', '][VALUES.index(value)] if target == 'builtin_method' else value
 
 
 # ---- observation helpers ---------------------------------------------------------------
@@ -255,7 +270,7 @@ def _norm(v):
     return [_norm(x) for x in v]
   if isinstance(v, (int, str, float, bool, type(None), bytes)):
     return v
-  if isinstance(v, type) or callable(v) and not hasattr(v, 'a'):
+  if isinstance(v, type) or callable(v):
     return ['callable', getattr(v, '__name__', '?')]
   state = {n: _norm(getattr(v, n)) for n in ('a', 'b', 'c', 'post', 'made_by_meta', 'args')
            if hasattr(v, n)}
@@ -287,8 +302,7 @@ def _snapshot(obj):
 
 
 def _registry_snapshot():
-  reg = {sel: tuple(map(id, gc._REGISTRY[sel][:2])) + tuple(gc._REGISTRY[sel][2:4])
-         for sel in list(gc._REGISTRY._selector_map)}  # pylint: disable=protected-access
+  reg = {sel: tuple(map(id, c[:2])) + tuple(c[2:4]) for sel, c in gc._REGISTRY.items()}
   inv = {id(k): v.selector for k, v in gc._INVERSE_REGISTRY.items()}
   return [reg, inv, dict(gc._RENAMED_SELECTORS)]
 
@@ -303,10 +317,10 @@ def _register(api, obj, name, module=MOD, **lists):
 
 # ---- cases -----------------------------------------------------------------------------
 WHYS = ['name_space', 'name_digit', 'name_dots', 'name_empty', 'name_slash', 'name_dash',
-        'name_newline', 'module_space', 'module_empty', 'module_dots', 'module_newline',
-        'duplicate', 'allow_unknown', 'deny_unknown', 'both_lists']
-REJECT_TARGETS = ['def_defaults', 'builtin_sum', 'callable_obj', 'bound_method', 'init', 'new',
-                  'namedtuple', 'meta', 'methods']
+        'module_space', 'module_empty', 'module_dots', 'duplicate', 'allow_unknown',
+        'deny_unknown', 'both_lists', 'module_newline', 'name_newline']
+REJECT_TARGETS = ['def_defaults', 'builtin_sum', 'callable_obj', 'callable_eq', 'bound_method',
+                  'init', 'new', 'namedtuple', 'meta', 'methods']
 VALUES = [41, 'forty-two', -3, 0]
 
 
@@ -321,20 +335,23 @@ def cases(tier, rng):
           for scope in SCOPES:
             yield {'mode': 'use', 'target': target, 'api': api, 'path': path, 'scope': scope,
                    'value': value}
+  for api in APIS:
+    for target in ('def_defaults', 'callable_eq', 'init', 'namedtuple'):
+      for leave in ('normal', 'raise', 'functions'):
+        yield {'mode': 'interactive', 'api': api, 'target': target, 'leave': leave}
   for why in WHYS:
     for api in APIS:
       for target in REJECT_TARGETS:
         yield {'mode': 'reject', 'why': why, 'api': api, 'target': target}
-  for api in APIS:
-    for target in ('def_defaults', 'callable_obj', 'init', 'namedtuple'):
-      for leave in ('normal', 'raise', 'functions'):
-        yield {'mode': 'interactive', 'api': api, 'target': target, 'leave': leave}
 
 
 # ---- the three contracts ---------------------------------------------------------------
 def _fail(fails, case, clause, expected, observed, extra=''):
-  keys = [k for k in ('mode', 'target', 'api', 'path', 'why', 'leave') if k in case]
+  keys = [k for k in ('target', 'api', 'path', 'why', 'leave') if k in case]
   sig = clause + ' ' + ' '.join('%s=%s' % (k, case[k]) for k in keys)
+  if case['mode'] != 'use':  # the kind of object matters there, not the exact shape
+    kind = 'fn' if case['target'] in FN_KINDS else 'cls+methods' if case['target'] == 'methods' else 'cls'
+    sig = sig.replace('target=' + case['target'], 'target=' + kind)
   if case.get('scope'):
     sig += ' scoped'
   fails.append({'clause': clause, 'expected': expected, 'observed': observed,
@@ -342,11 +359,14 @@ def _fail(fails, case, clause, expected, observed, extra=''):
 
 
 def _version(case, orig, returned, name):
-  """The registry's version of the target, reached by case['path'] (and scope)."""
+  """(callable, its args): the registry's version reached by case['path'], or for 'ref_call'
+  a holder whose call evaluates the reference."""
   scope, path = case['scope'], case['path']
   prefix = scope + '/' if scope else ''
-  if path in ('returned', 'object'):
-    return returned if path == 'returned' else gin.get_configurable(orig)
+  if path == 'returned':
+    return returned
+  if path == 'object':
+    return gin.get_configurable(orig)
   if path in ('selector', 'partial'):
     return gin.get_configurable(prefix + (MOD + '.' + name if path == 'selector' else name))
 
@@ -354,18 +374,23 @@ def _version(case, orig, returned, name):
     return v
   gin.external_configurable(holder, name='holder', module='c13h')
   gin.parse_config('c13h.holder.v = @%s%s.%s%s' % (prefix, MOD, name, '()' if path == 'ref_call' else ''))
-  return gin.get_configurable('c13h.holder')
+  holder = gin.get_configurable('c13h.holder')
+  return holder if path == 'ref_call' else holder()
 
 
 def _check_use(case, fails):
-  target, api, path, scope, value = (case[k] for k in ('target', 'api', 'path', 'scope', 'value'))
+  target, api, path, scope = (case[k] for k in ('target', 'api', 'path', 'scope'))
+  value = _adapt(target, case['value'])
   orig, args, param = _target(target)
   is_cls = inspect.isclass(orig)
   name = 'T_' + target
   kw = {param: value} if param else {}
+  # expectations, from the original alone, before gin has seen it
   exp_direct = _outcome(orig, args, {})
   exp_inj = _outcome(orig, args, kw)
-  exp_meth = _outcome(lambda: orig(*args, **kw).meth(k=value), (), {}) if target == 'methods' else None
+  if target == 'methods':
+    exp_meth = _outcome(lambda: orig(*args, **kw).meth(k=value), (), {})
+    exp_meth_plain = _outcome(lambda: orig(*args).meth(), (), {})
   try:
     sig_before = inspect.signature(orig)
   except (ValueError, TypeError):
@@ -381,7 +406,7 @@ def _check_use(case, fails):
     if scope:
       gin.bind_parameter('%s/%s.%s.%s' % (scope, MOD, name, param), value)
   if target == 'methods' and api != 'configurable':
-    gin.bind_parameter('%s.%s.meth.k' % (MOD, name), value)
+    gin.bind_parameter('%s.%s.meth_0.k' % (MOD, name), value)
 
   if api == 'register' and returned is not orig:
     _fail(fails, case, 'original_unaltered', 'register returns its argument', repr(returned)[:60])
@@ -396,53 +421,44 @@ def _check_use(case, fails):
     for a in ('__name__', '__doc__'):
       if meta_before[a] is not None and getattr(returned, a, None) != meta_before[a]:
         _fail(fails, case, 'fn_metadata', meta_before[a], getattr(returned, a, None), 'attr=' + a)
-    if sig_before is not None and _outcome(inspect.signature, (returned,), {}) != ['ok', _norm(sig_before)] \
-        and inspect.signature(returned) != sig_before:
-      _fail(fails, case, 'fn_metadata', str(sig_before), str(inspect.signature(returned)), 'attr=signature')
+    if sig_before is not None:
+      try:
+        sig_after = inspect.signature(returned)
+      except (ValueError, TypeError) as e:
+        sig_after = type(e).__name__
+      if sig_after != sig_before:
+        _fail(fails, case, 'fn_metadata', str(sig_before), str(sig_after), 'attr=signature')
 
   if path == 'ref_call' and args:
     return  # an evaluated reference cannot pass the positional arguments this target needs
-  if path in ('returned', 'object'):
-    with gin.config_scope(scope):
-      version = _version(case, orig, returned, name)
-      call = version
-      got = _outcome(version, args, {})
-  else:
+  with gin.config_scope(scope if path in ('returned', 'object') else ''):
     version = _version(case, orig, returned, name)
-    if path == 'ref_call':
-      call, version, got = None, None, _outcome(gin.get_configurable('c13h.holder'), (), {})
-    else:
-      version = version()
-      call, got = version, _outcome(version, args, {})
+    got = _outcome(version, args, {})
+    inst = version(*args) if is_cls and exp_inj[0] == 'ok' and got[0] == 'ok' else None
   if got != exp_inj:
     _fail(fails, case, 'registry_injected', exp_inj, got)
   if not is_cls:
     return
 
-  if version is not None:
+  if path != 'ref_call':
     if not (inspect.isclass(version) and issubclass(version, orig)):
       _fail(fails, case, 'class_metadata', 'a subclass of the original', repr(version)[:60], 'attr=subclass')
     else:
       for a, want in meta_before.items():
         if getattr(version, a, None) != want:
           _fail(fails, case, 'class_metadata', want, getattr(version, a, None), 'attr=' + a)
-  if exp_inj[0] != 'ok':
+  if inst is None:
     return
-  if path == 'ref_call':
-    inst = gin.get_configurable('c13h.holder')()
-  else:
-    with gin.config_scope(scope if path in ('returned', 'object') else ''):
-      inst = call(*args)
-  overriding = target == 'methods' and api != 'configurable'
   if not isinstance(inst, orig):
     _fail(fails, case, 'instance_of_original', orig.__name__, type(inst).__name__)
-  elif overriding:
-    got = _outcome(inst.meth, (), {})
-    if got != exp_meth:
-      _fail(fails, case, 'registry_injected', exp_meth, got, 'method')
-    plain = _outcome(orig(*args).meth, (), {})
-    if plain != ['ok', ['meth', 1, 1]]:
-      _fail(fails, case, 'direct_call_plain', ['ok', ['meth', 1, 1]], plain, 'method')
+  elif target == 'methods':  # registered methods (may) need overriding: a subclass is allowed
+    if api != 'configurable':
+      got = _outcome(inst.meth, (), {})
+      if got != exp_meth:
+        _fail(fails, case, 'registry_injected', exp_meth, got, 'method')
+      plain = _outcome(orig(*args).meth, (), {})
+      if plain != exp_meth_plain:
+        _fail(fails, case, 'direct_call_plain', exp_meth_plain, plain, 'method')
   elif type(inst) is not orig:
     _fail(fails, case, 'exact_type', 'type(instance) is the original class',
           'a different class named ' + type(inst).__name__)
@@ -455,7 +471,7 @@ def _check_use(case, fails):
 def _check_reject(case, fails):
   why, api, target = case['why'], case['api'], case['target']
   orig, args, _ = _target(target)
-  other, _, _ = _target(target)
+  other = _target(target, 1)[0] if target != 'builtin_sum' else len  # a different object
   neighbour = _register('external', lambda q=0: ['n', q], 'neighbour')
   _register(api, other, 'taken')
   name, module, lists = 'fresh', MOD, {}
@@ -477,6 +493,7 @@ def _check_reject(case, fails):
   try:
     _register(api, orig, name, module, **lists)
     _fail(fails, case, 'rejected', 'an exception', 'accepted name=%r module=%r %r' % (name, module, lists))
+    return fails  # what follows is about rejections that happened
   except Exception:  # pylint: disable=broad-except
     pass
   if _registry_snapshot() != reg_before:
@@ -493,8 +510,7 @@ def _check_reject(case, fails):
 def _check_interactive(case, fails):
   api, target, leave = case['api'], case['target'], case['leave']
   first, args, param = _target(target)
-  second, _, _ = _target(target)
-  third, _, _ = _target(target)
+  second, third = _target(target, 1)[0], _target(target, 2)[0]
   exp = _outcome(second, args, {param: 5})
   _register(api, first, 'again')
   gin.bind_parameter('%s.again.%s' % (MOD, param), 5)
@@ -503,7 +519,7 @@ def _check_interactive(case, fails):
     try:
       _register(api, obj, 'again')
       return 'accepted'
-    except ValueError:
+    except Exception:  # pylint: disable=broad-except
       return 'rejected'
   if attempt(second) != 'rejected':
     _fail(fails, case, 'rejected', 'rejected outside interactive mode', 'accepted', 'before')
@@ -515,7 +531,7 @@ def _check_interactive(case, fails):
     gin.exit_interactive_mode()
   else:
     try:
-      with gin.interactive_mode():
+      with gc.interactive_mode():
         inside = attempt(second)
         if leave == 'raise':
           raise KeyError('body fails')
